@@ -4,6 +4,7 @@
 // K1..K6 (complete: loop-free over the full value domain): the six little-endian codec methods of
 // ReadLeNumber / WriteLeNumber compute exactly the byte layout `le16/le32/le64` that the Verus contracts name
 // (byte i of the encoding is bits 8i..8i+7), on a fixed-size in-memory writer/reader.
+// K4..K6 also: reading from a source that is one byte short returns Err.
 // K7..K9 (BOUNDED, never counted as proved): compare_names on names of at most 2 chars drawn from a small alphabet
 // that includes the characters where the orders differ (ASCII letters of both cases, '_', a supplementary-plane
 // character): shortlex over UTF-16 units of the upper-cased name.
@@ -46,6 +47,13 @@ mod vx_kani {
         let v = r.read_le_u16().unwrap();
         assert!(v == (b[0] as u16) | ((b[1] as u16) << 8));
         assert!(r.len() == 0);
+        // a short source is an error, never a made-up value (C12)
+        let sb: [u8; 1] = kani::any();
+        let mut sr: &[u8] = &sb;
+        let res = sr.read_le_u16();
+        let failed = res.is_err();
+        std::mem::forget(res); // io::Error's drop glue is recursive: CBMC would unwind it without end
+        assert!(failed);
     }
     #[kani::proof]
     fn k_read_le_u32() {
@@ -54,6 +62,13 @@ mod vx_kani {
         let v = r.read_le_u32().unwrap();
         assert!(v == (b[0] as u32) | ((b[1] as u32) << 8) | ((b[2] as u32) << 16) | ((b[3] as u32) << 24));
         assert!(r.len() == 0);
+        // a short source is an error, never a made-up value (C12)
+        let sb: [u8; 3] = kani::any();
+        let mut sr: &[u8] = &sb;
+        let res = sr.read_le_u32();
+        let failed = res.is_err();
+        std::mem::forget(res); // io::Error's drop glue is recursive: CBMC would unwind it without end
+        assert!(failed);
     }
     #[kani::proof]
     fn k_read_le_u64() {
@@ -64,6 +79,13 @@ mod vx_kani {
         let hi = (b[4] as u64) | ((b[5] as u64) << 8) | ((b[6] as u64) << 16) | ((b[7] as u64) << 24);
         assert!(v == lo | (hi << 32));
         assert!(r.len() == 0);
+        // a short source is an error, never a made-up value (C12)
+        let sb: [u8; 7] = kani::any();
+        let mut sr: &[u8] = &sb;
+        let res = sr.read_le_u64();
+        let failed = res.is_err();
+        std::mem::forget(res); // io::Error's drop glue is recursive: CBMC would unwind it without end
+        assert!(failed);
     }
 }
 
